@@ -75,15 +75,15 @@ class C02(Check):
     ]
 
     def strategy(self, tier: str):
-        def for_kind(kind: str):
-            reg = stdreg.std_registry(kind)
+        def for_kind(kind: str, plain: bool = False):
+            reg = stdreg.std_registry('sync' if plain else kind)
             gen = docs.document(reg, kinds=['single'] * 2 + ['batch'] * 8,
                                 flavours=['valid'] * 12 + ['unknown-method'] * 2 + ['deviant', 'non-object'])
             return st.builds(
-                lambda text, beh, mbs, codec: {'dispatcher': kind, 'max_batch_size': batch_limit(text, mbs), 'behaviours': beh, 'text': text, 'codec': codec},
+                lambda text, beh, mbs, codec: {'dispatcher': kind, 'plain': plain, 'max_batch_size': batch_limit(text, mbs), 'behaviours': beh, 'text': text, 'codec': codec},
                 gen, stdreg.behaviours(True), st.sampled_from(BATCH_LIMITS + ['-1', '0', '+1']), st.sampled_from(CODEC_CHOICES),
             )
-        return st.one_of(for_kind('sync'), for_kind('async'))
+        return st.one_of(for_kind('sync'), for_kind('async'), for_kind('async', True))
 
     # -- enumeration of element-kind words -----------------------------------------------------------
 
